@@ -67,6 +67,9 @@ type ColumnSpec struct {
 type TableDef struct {
 	Name string
 	Cols []ColumnSpec
+	// Key, when set, names the unique key column: INSERT of an existing key fails with 1062 unless the statement
+	// is REPLACE or carries ON DUPLICATE KEY UPDATE (c04.go)
+	Key string
 }
 
 type table struct {
@@ -88,6 +91,9 @@ type Store struct {
 	mu     sync.Mutex
 	tables map[string]*table
 	Schema string // database name used in column definitions
+	// AliasInFields makes column definitions carry the table alias of the statement in their table field (org_table
+	// keeps the real name), as MySQL does; off by default
+	AliasInFields bool
 }
 
 // NewStore creates the store with the given tables.
@@ -300,6 +306,16 @@ func tokenize(sql string) ([]token, error) {
 					i = k + 1 + n
 					continue
 				}
+				// introducer before a hex literal: _binary X'4142'
+				if k+1 < len(s) && (s[k] == 'x' || s[k] == 'X') && s[k+1] == '\'' {
+					if j := bytes.IndexByte(s[k+2:], '\''); j >= 0 {
+						if b, err := hex.DecodeString(string(s[k+2 : k+2+j])); err == nil {
+							out = append(out, token{kind: tHex, b: b})
+							i = k + j + 3
+							continue
+						}
+					}
+				}
 			}
 			out = append(out, token{kind: tIdent, s: word})
 			i = j
@@ -373,6 +389,11 @@ type parsedStmt struct {
 	sel     []selItem
 	where   *cond
 	nParams int
+	// c04.go: REPLACE, ON DUPLICATE KEY UPDATE assignments, table alias of a SELECT
+	replace   bool
+	onDup     []string
+	onDupVals []operand
+	alias     string
 }
 
 type parser struct {
@@ -599,7 +620,9 @@ func parseSQL(sql string) (*parsedStmt, error) {
 		return st, nil
 	}
 	switch {
-	case p.acceptKw("insert"):
+	case p.isKw("insert") || p.isKw("replace"):
+		st.replace = p.isKw("replace")
+		p.pos++
 		st.kind = "insert"
 		p.acceptKw("into")
 		if st.table, err = p.qident(); err != nil {
@@ -619,6 +642,18 @@ func parseSQL(sql string) (*parsedStmt, error) {
 			if err := p.expectSym(")"); err != nil {
 				return nil, err
 			}
+		}
+		if st.cols == nil && p.acceptKw("set") {
+			// INSERT INTO t SET c = v, ... [ON DUPLICATE KEY UPDATE ...] (c04.go)
+			var row []operand
+			if st.cols, row, err = p.assignments(); err != nil {
+				return nil, err
+			}
+			st.rows = [][]operand{row}
+			if err := p.onDuplicate(st); err != nil {
+				return nil, err
+			}
+			return finish()
 		}
 		if !p.acceptKw("values") && !p.acceptKw("value") {
 			return nil, sqlErr("expected VALUES")
@@ -648,6 +683,9 @@ func parseSQL(sql string) (*parsedStmt, error) {
 			if !p.acceptSym(",") {
 				break
 			}
+		}
+		if err := p.onDuplicate(st); err != nil {
+			return nil, err
 		}
 		return finish()
 	case p.acceptKw("update"):
@@ -703,6 +741,8 @@ func parseSQL(sql string) (*parsedStmt, error) {
 		st.kind = "select"
 		if p.acceptSym("*") {
 			st.star = true
+		} else if p.qualifiedStar() {
+			st.star = true
 		} else {
 			for {
 				c, err := p.qident()
@@ -734,6 +774,7 @@ func parseSQL(sql string) (*parsedStmt, error) {
 		// optional table alias
 		if t := p.peek(); t.kind == tIdent && !p.isKw("where") {
 			p.acceptKw("as")
+			st.alias = p.peek().s
 			p.pos++
 		}
 		if p.acceptKw("where") {
@@ -928,6 +969,8 @@ type Field struct {
 	OrgName string
 	Table   string
 	Type    ColType
+	// TableAlias, when set, is sent in the table field of the column definition (Table stays org_table)
+	TableAlias string
 }
 
 // Result of executing one statement.
@@ -975,9 +1018,14 @@ func (s *Store) Describe(p *Prepared) ([]Field, error) {
 	return fields, err
 }
 
-func (s *Store) selection(t *table, st *parsedStmt) ([]int, []Field, error) {
-	var idx []int
-	var fields []Field
+func (s *Store) selection(t *table, st *parsedStmt) (idx []int, fields []Field, err error) {
+	if s.AliasInFields && st.alias != "" {
+		defer func() {
+			for i := range fields {
+				fields[i].TableAlias = st.alias
+			}
+		}()
+	}
 	if st.star {
 		for i, c := range t.def.Cols {
 			idx = append(idx, i)
@@ -1053,6 +1101,9 @@ func (s *Store) Exec(p *Prepared, params []Param) (*Result, error) {
 				row[cols[i]] = v
 			}
 			added = append(added, row)
+		}
+		if t.def.Key != "" {
+			return s.insertKeyed(e, t, st, added)
 		}
 		t.rows = append(t.rows, added...)
 		return &Result{Affected: uint64(len(added))}, nil
